@@ -50,7 +50,9 @@ BUCKET_F64 = "fit-leaves-float64-parameters"
 RULE = (
     "fit: Hypothesis cases = model configuration (kind in logistic/linear/shared_speed_logistic/joint/mixture_logistic, dimension 1-4, "
     "source_dimension 0..dimension-1, noise gaussian-scalar/gaussian-diagonal/bernoulli) x instance name x feature names x generated "
-    "cohort (vf.core.gen.cohort, 2-8 individuals) x n_iter 8-30 x seed x individuals to estimate; roundtrip: the same configuration "
+    "cohort (vf.core.gen.cohort, 2-8 individuals) x n_iter 8-30 x seed x algorithm configuration (memory-less phase as default / "
+    "fraction in {0,.25,.5,.75,1} / explicit count with fraction None / explicit count with default fraction; annealing on/off; "
+    "population sampler Gibbs/FastGibbs/Metropolis-Hastings) x individuals to estimate; roundtrip: the same configuration "
     "space with hand-written float32 parameters in the DESIGN.md ranges, with_mixing_matrix in {True, False}, constructor given "
     "features only or features+dimension, and for 1/3 of the cases a first parameter set replaced by the final one through a second "
     "load_parameters on the same object, for 1/4 feature names assigned through the `features` setter, for 1/5 one or two further "
@@ -87,7 +89,10 @@ REQUIRED_CLASSES = {
     "kind:logistic": 100, "kind:linear": 100, "kind:shared_speed_logistic": 100, "kind:joint": 100, "kind:mixture_logistic": 100,
     "noise:gaussian-scalar": 200, "noise:gaussian-diagonal": 200, "noise:bernoulli": 30, "with_mixing_matrix=False": 200,
     "features:unicode-or-space": 200, "features:outer-blank": 200, "features:tab": 100, "features:via-setter": 200,
-    "fit:features:outer-blank": 30, "roundtrip:same-path-overwritten": 200, "roundtrip:same-path-later-step": 200, "give-dimension": 200,
+    "fit:features:outer-blank": 30, "fit:explicit-burn-in-count": 60, "fit:explicit-burn-in-count:fraction-none": 30,
+    "fit:explicit-burn-in-count:fraction-none:>=2-iterations-with-memory": 15, "fit:explicit-burn-in-count:fraction-default": 15,
+    "fit:burn-in-fraction": 40, "fit:burn-in-fraction-0-or-1": 10, "fit:burn-in-default": 20, "fit:annealing": 40,
+    "fit:sampler-pop:FastGibbs": 10, "fit:sampler-pop:Metropolis-Hastings": 10, "roundtrip:same-path-overwritten": 200, "roundtrip:same-path-later-step": 200, "give-dimension": 200,
     "fit:scalar-noise": 50, "fit:sources>=1": 50, "fit:kind:joint": 10, "fit:kind:mixture_logistic": 10, "fit:pop-variables-moved": 100,
 }
 
@@ -255,6 +260,26 @@ def roundtrip_case(draw, kinds=KINDS):
 
 
 @st.composite
+def _algo_config(draw, n_iter, kind):
+    """Extra mcmc_saem settings (plain kwargs of `fit`): how the memory-less phase is given, annealing, population sampler."""
+    algo = {}
+    mode = draw(st.sampled_from(["default", "fraction", "fraction", "count-fraction-none", "count-fraction-none", "count-fraction-default"]))
+    if mode == "fraction":
+        algo["n_burn_in_iter_frac"] = draw(st.sampled_from([0.0, 0.25, 0.5, 0.75, 1.0]))
+    elif mode.startswith("count"):
+        algo["n_burn_in_iter"] = draw(st.one_of(st.integers(0, n_iter), st.integers(1, max(1, n_iter - 3))))
+        if mode == "count-fraction-none":
+            algo["n_burn_in_iter_frac"] = None  # the documented way to give the count without the deprecation warning
+    if draw(st.sampled_from([False, False, True])):
+        # at least n_plateau - 1 annealing iterations (fewer are refused at initialisation)
+        algo["annealing"] = dict(do_annealing=True, initial_temperature=draw(st.sampled_from([2, 5, 10])),
+                                 n_plateau=draw(st.integers(2, 3)), n_iter_frac=0.5)
+    if kind != "mixture_logistic" and draw(st.sampled_from([False, False, True])):
+        algo["sampler_pop"] = draw(st.sampled_from(["FastGibbs", "Metropolis-Hastings"]))
+    return algo
+
+
+@st.composite
 def fit_case(draw, kinds=KINDS):
     cfg = draw(_cfg_strategy(kinds))
     kw = cfg["kwargs"]
@@ -265,7 +290,9 @@ def fit_case(draw, kinds=KINDS):
     # orders equal (ids s0..s7 / increasing digit strings, rows not shuffled) so that the fit starts at all
     cohort = draw(gen.cohort(kind=gen.data_kind_for(cfg), n_ind=(lo, max(lo, 8)), n_visits=(1, 6), features=feats, event=joint,
                              id_kinds=("s", "digits") if joint else ("s", "digits", "unicode", "words"), shuffle=not joint))
-    return dict(cfg=cfg, name=draw(_name(cfg["kind"])), cohort=cohort, n_iter=draw(st.integers(8, 30)), seed=draw(st.integers(0, 50)),
+    n_iter = draw(st.integers(8, 30))
+    return dict(cfg=cfg, name=draw(_name(cfg["kind"])), cohort=cohort, n_iter=n_iter, seed=draw(st.integers(0, 50)),
+                algo=draw(_algo_config(n_iter, cfg["kind"])),
                 with_mixing_matrix=draw(st.sampled_from([True, True, False])),
                 individuals=draw(_individuals(kw["source_dimension"], cfg["kind"] == "shared_speed_logistic")))
 
@@ -808,7 +835,7 @@ def fit_model(col: Collector, case):
     model = gen.build_model(case["cfg"], name=case["name"])
     try:
         with contextlib.redirect_stdout(io.StringIO()):
-            model.fit(data, "mcmc_saem", n_iter=case["n_iter"], seed=case["seed"], progress_bar=False)
+            model.fit(data, "mcmc_saem", n_iter=case["n_iter"], seed=case["seed"], progress_bar=False, **dict(case.get("algo") or {}))
     except LeaspyConvergenceError:
         col.exclude("fit-stopped:LeaspyConvergenceError(collapsed variance)")
         return None
@@ -865,8 +892,26 @@ def body_fit(col: Collector, case):
         extra.append("fit:pop-variables-moved")
     if "features:outer-blank" in cl:
         extra.append("fit:features:outer-blank")
+    algo = case.get("algo") or {}
+    if "n_burn_in_iter" in algo:
+        extra.append("fit:explicit-burn-in-count")
+        if "n_burn_in_iter_frac" in algo:
+            extra.append("fit:explicit-burn-in-count:fraction-none")
+            if algo["n_burn_in_iter"] <= case["n_iter"] - 2:
+                extra.append("fit:explicit-burn-in-count:fraction-none:>=2-iterations-with-memory")
+        else:
+            extra.append("fit:explicit-burn-in-count:fraction-default")
+    elif "n_burn_in_iter_frac" in algo:
+        extra.append("fit:burn-in-fraction")
+        if algo["n_burn_in_iter_frac"] in (0.0, 1.0):
+            extra.append("fit:burn-in-fraction-0-or-1")
+    else:
+        extra.append("fit:burn-in-default")
+    if "annealing" in algo:
+        extra.append("fit:annealing")
+    extra.append("fit:sampler-pop:" + algo.get("sampler_pop", "Gibbs"))
     col.case(classes=extra + cl, nontrivial=jhash(case) if nt else None,
-             sample=dict(sub_check="fit", cfg=case["cfg"], name=case["name"], n_iter=case["n_iter"], seed=case["seed"],
+             sample=dict(sub_check="fit", cfg=case["cfg"], name=case["name"], n_iter=case["n_iter"], seed=case["seed"], algo=algo,
                          n_rows=len(case["cohort"]["rows"]), parameters={k: v.tolist() for k, v in model.parameters.items()}))
 
 
